@@ -1,4 +1,4 @@
-import DaskModel.Lemmas.TreeReduce
+import DaskModel.Lemmas.ArrayReduce
 import DaskModel.Lemmas.BlockScan
 import DaskModel.Lemmas.BlellochTable
 /-!
@@ -9,14 +9,14 @@ Full statement (for the modelled logic): for every blocking of the data, every `
 `chunk → combine* → aggregate` returns one block whose value is NumPy's reduction of the concatenated
 data; sequential and Blelloch scans return the global scan.  What is proved here:
 
-* K1 `treeReduce_eq_fold` (in `Lemmas/TreeReduce.lean`) and `split_every_irrelevant`;
+* K1 `treeReduce_eq_fold` (in `Lemmas/ArrayReduce.lean`) and `split_every_irrelevant`;
 * `*_eq_numpy` for sum, prod, any, all, min, max, mean-as-(total, n) — exact integer algebra;
 * the arg-reduction merge is a semigroup (`hom_argCombine`), so tie-breaking does not depend on the tree.
 Not proved (validated by the correspondence check): float round-off, var/std/moment, nan-variants,
 multi-axis value equality, median/quantile glue.
 -/
 namespace Dask.C22
-open Dask.TreeReduce
+open Dask.ArrayReduce
 
 variable {α β γ : Type}
 
